@@ -20,5 +20,22 @@ PROPS = {
         "assumptions": ["x86_64 only: NEON/SVE2 kernels and the AVX-512 popcount (feature simd) are not verified",
                         "real silicon implements PDEP/PSHUFB/PSADBW as the SDM pseudo-code says"],
     },
+    "C01": {
+        "level": "proof",
+        "explanation": "Verus proves, on the text of the real functions extracted from the working tree on every run, that "
+                       "BitVec::{with_config,get,rank1,rank0,select1,select0,count_ones,count_zeros}, scan_select/scan_scalar/"
+                       "scan_select_scalar, SelectIndex::{build,jump_to} and RankDirectory::{build,rank_at_word} meet contracts "
+                       "phrased over the bit-at-a-time definitions (rank1_bits, is_select1, is_select0) for every word vector, "
+                       "length, query argument and sample rate; the word-level kernels they call (count_ones, popcount_word*, "
+                       "block_popcount*, select_in_word and its three back ends) are proved complete by Kani over all 2^64 words. "
+                       "Independence from the sample rate and popcount strategy is a corollary: no postcondition mentions them.",
+        "trusted_base": COMMON_TRUST + [MODELS + "_pdep_u64, _mm256_shuffle_epi8, _mm256_sad_epu8",
+                                        "Verus 0.2026.09.13 + Z3; vstd specs of Vec/slice/Option",
+                                        "seam R4: a contract proved by Kani (machine integers) and used by Verus as an external_body "
+                                        "stub (nat/Seq) state the same thing"],
+        "assumptions": ["x86_64 only; AVX-512 popcount of feature simd and aarch64 kernels unverified",
+                        "CacheAlignedL1L2 (unsafe aligned allocation) is modelled as a Vec<u128>-like sequence",
+                        "slice lengths <= usize::MAX/64 - 8 words (allocation limit)"],
+    },
 }
 FIX_COMMITS = []
